@@ -3278,6 +3278,8 @@ class SEVM:
 
                     # otherwise, create a new execution for feasible targets
                     elif self.options.symbolic_jump:
+                        # note: the destination can be a symbolic Bool (a comparison result): compare it as a word
+                        dst = BV(dst, size=256)
                         reachable_targets = [
                             target
                             for target in ex.pgm.valid_jumpdests()
